@@ -699,7 +699,7 @@ def mk_case(cid, cfg, ents, data, dump=1):
 
 # ---------------------------------------------------------------------------------------------------------------------
 def stage_generated(ck, binary, tier, nproc, cov):
-    nschemas = int(os.environ.get('XV_C08_N', 32 if tier == 'quick' else 600))     # XV_C08_N: development knob
+    nschemas = int(os.environ.get('XV_C08_N', 32 if tier == 'quick' else 400))     # XV_C08_N: development knob
     chunk = 32 if tier == 'quick' else 50
     stats, fam, rules_seen, tags, codes, cfg_seen, skipped = (cov[k] for k in ('stats', 'fam', 'rules', 'tags', 'codes', 'cfg', 'skipped'))
     shapes = cov['shapes']
